@@ -44,8 +44,12 @@ pub fn run_c15(cx: &mut Cx) {
     let key = pool_key(cx.ch.forced("pool_key", POOL_SIZE, cx.run_index));
     let (n, hidden) = combo(cx.ch.forced("combo", 62, cx.run_index.wrapping_mul(27)));
     let seed = cx.run_seed;
+    if cx.run_index % 8 == 5 { return grind(cx, issuer, holder, verifier, key); }
+    // the hidden positions are a set: also listed descending / rotated / shuffled
+    let (order_h, hidden) = reorder(&mut cx.ch, "hidden_list_order", &hidden);
+    if order_h != "as-given" { cx.count("probe.hidden_positions_listed_in_non_ascending_order"); }
     let msgs: Vec<Integer> = (0..n).map(|i| { let kind = cx.ch.weighted("attr_kind", &[8, 1, 1, 1]) as u64; gen_attr(seed, i as u64, kind).value }).collect();
-    cx.log(format!("session: key#{} n={n} hidden={hidden:?}", key.idx));
+    cx.log(format!("session: key#{} n={n} hidden={hidden:?} ({order_h})", key.idx));
     cx.cell(format!("shape|n{n}|U{}", hidden.len()));
     if hidden.is_empty() { cx.count("probe.nothing_hidden"); }
     if hidden.len() == n { cx.count("probe.all_hidden"); }
@@ -112,6 +116,30 @@ pub fn run_c15(cx: &mut Cx) {
     cx.run();
 }
 
+/// Every eighth run: the holder generates presentations of a minimal credential until one chosen
+/// Fiat-Shamir value of the proof (a different one per run) has a leading zero octet; that honest
+/// presentation must verify like any other.
+fn grind(cx: &mut Cx, issuer: NodeId, holder: NodeId, verifier: NodeId, key: Arc<KeyMat>) {
+    let target = cx.run_index / 8;
+    let hide = target % 2 == 1; // with one hidden attribute the per-attribute range proof is part of the frame
+    let cap = if cx.thorough { 3000 } else { 700 };
+    let msgs = vec![gen_attr(cx.run_seed, 0, 0).value];
+    let hidden: Vec<usize> = if hide { vec![0] } else { vec![] };
+    let (k1, m1, h1) = (key.clone(), msgs.clone(), hidden.clone());
+    let _ = issuer;
+    cx.step(holder, "grind-proof_gen", StepOpts::default(), move || { let sig = issue_plain(&k1, &m1); grind_short_hash(|| holder_present(&k1, &sig, &m1, &h1), target / 2, cap) }, move |cx, st| {
+        let Ok((pj, tries, path, hit)) = st.out else { cx.violation("C15", "proof_gen/failed".into(), "while grinding".into()); return; };
+        cx.add("n.grinding_generations", tries as u64);
+        if !hit { cx.count("probe.grinding_gave_up"); cx.log(format!("no short {path} in {tries} generations")); return; }
+        cx.count("probe.honest_proof_with_leading_zero_octet_in_a_challenge");
+        cx.log(format!("{path} has a leading zero octet after {tries} generations"));
+        let revealed = if hide { vec![] } else { msgs.clone() };
+        let p = Presentation { pk: key.pk.clone(), bases: key.bases.0[..1].to_vec(), cpk: key.cpk.clone(), proof_json: pj, revealed, hidden: hidden.clone(), n: 1 };
+        deliver(cx, verifier, p, format!("none:short_hash_value:{}", generic_path(&path)), true);
+    });
+    cx.run();
+}
+
 fn tamper(cx: &mut Cx, verifier: NodeId, key: Arc<KeyMat>, p: Presentation) {
     let n = p.n;
     // revealed attributes
@@ -132,7 +160,7 @@ fn tamper(cx: &mut Cx, verifier: NodeId, key: Arc<KeyMat>, p: Presentation) {
     // hidden set and count
     if let Some(extra) = (0..n).find(|i| !p.hidden.contains(i)) { let mut q = p.clone(); q.hidden.push(extra); q.hidden.sort(); deliver(cx, verifier, q, "hidden_set:+1".into(), false); }
     if !p.hidden.is_empty() { let mut q = p.clone(); q.hidden.pop(); deliver(cx, verifier, q, "hidden_set:-1".into(), false); }
-    if n > 1 && !p.hidden.is_empty() && p.hidden.len() < n { let h: Vec<usize> = p.hidden.iter().map(|i| (i + 1) % n).collect(); let mut hs = h; hs.sort(); if hs != p.hidden { let mut q = p.clone(); q.hidden = hs; deliver(cx, verifier, q, "hidden_set:shifted".into(), false); } }
+    if n > 1 && !p.hidden.is_empty() && p.hidden.len() < n { let h: Vec<usize> = p.hidden.iter().map(|i| (i + 1) % n).collect(); let mut hs = h; hs.sort(); let mut own = p.hidden.clone(); own.sort(); if hs != own { let mut q = p.clone(); q.hidden = hs; deliver(cx, verifier, q, "hidden_set:shifted".into(), false); } }
     // (dropping a trailing revealed zero attribute is the same statement: a_i^0 = 1)
     let last_is_revealed_zero = !p.hidden.contains(&(n - 1)) && p.revealed.last().map(|x| *x == 0).unwrap_or(false);
     if n > 1 && !last_is_revealed_zero { let mut q = p.clone(); q.n = n - 1; deliver(cx, verifier, q, "n:-1".into(), false); }
